@@ -552,15 +552,14 @@ func (ex *Exec) wellBehavedHandler(st *State, ev *Event, args []Value, pp, herr 
 	isObj := Eq(b0, BVI(8, '{'))
 	closer := Ite(isStr, BVI(8, '"'), Ite(isArr, BVI(8, ']'), BVI(8, '}')))
 	exact := And(Eq(herr, NilErr), Not(Eq(pp, I64(0))))
-	facts := And(
-		Slt(I64(0), pp), Sle(pp, dsl.Len),
-		Or(isStr, isArr, isObj),
+	guard := And(exact, Or(isStr, isArr, isObj))
+	// kept as separate hypotheses so that the ones that do not mention the spec run survive the
+	// light proof tier
+	st.assume(Implies(guard, And(Slt(I64(0), pp), Sle(pp, dsl.Len))))
+	st.assume(Implies(guard, Eq(Select(arr, Sub(ve, I64(1))), closer)))
+	st.assume(Implies(guard, And(
 		Eq(ex.Rdepth(arr, ve), d0),
-		Eq(ex.Rq(arr, ve), afterOfCtx(tab, App("spec.ctxof", BV(8), q0))),
-		Eq(Select(arr, Sub(ve, I64(1))), closer),
-	)
-	// numbers and literals: the machines ignore the offset; nothing is assumed about it there
-	st.assume(Implies(And(exact, Or(isStr, isArr, isObj)), facts))
+		Eq(ex.Rq(arr, ve), afterOfCtx(tab, App("spec.ctxof", BV(8), q0))))))
 	// a well-behaved handler given a number/literal returns 0 or its end; the code does not use it
 	bv := Fresh("q.f", BV(64))
 	st.qfacts = append(st.qfacts, &QFact{Guard: And(exact, Or(isStr, isArr, isObj)), BV: bv, Lo: I64(0), Hi: d0,
